@@ -295,6 +295,12 @@ class Parser:
         if v in ("for", "switch", "goto", "break", "continue", "case", "default", "asm", "__asm__"):
             raise ParseError("statement kind %r is outside the translator's subset" % v)
         if self.is_type_start() and not (self.kind(1) == "op" and self.peek(1) in ("(", "=", ".", "->", "[", "+", "-")):
+            # a storage class changes what a local IS (a `static` local is shared by all threads): never dropped silently
+            k = 0
+            while self.kind(k) == "id" and self.is_type_start(k):
+                if self.peek(k) in ("static", "extern", "register"):
+                    raise ParseError("storage class %r on a local declaration is outside the subset" % self.peek(k))
+                k += 1
             ty = self.parse_type()
             if self.kind() != "id":
                 raise ParseError("declarator name expected")
@@ -459,3 +465,38 @@ class Unit:
 
     def struct(self, tag):
         return struct_members(self.toks, tag)
+
+    def file_scope_decls(self, name):
+        """token texts of every file-scope declaration statement (not a function definition or prototype) that
+        mentions identifier `name`, e.g. ['static', 'PMutex', '*', 'm', '=', '(', '(', 'void', '*', ')', '0', ')']"""
+        out, cur, depth, i, n = [], [], 0, 0, len(self.toks)
+        bodies = set()
+        for nm, (ret_t, par_t, body_t) in self.raw.items():
+            bodies.add(id(body_t))
+        while i < n:
+            v = self.toks[i][1]
+            if v == "{":
+                depth += 1
+            elif v == "}":
+                depth -= 1
+                if depth == 0:
+                    # end of a function body or of an aggregate: a following `;` closes the aggregate's declaration
+                    if not (i + 1 < n and self.toks[i + 1][1] == ";"):
+                        cur = []
+            elif depth == 0:
+                if v == ";":
+                    if name in cur and not (cur.index(name) + 1 < len(cur) and cur[cur.index(name) + 1] == "("):
+                        out.append(cur)
+                    cur = []
+                else:
+                    cur.append(v)
+            i += 1
+        return out
+
+    def count_assignments(self, name):
+        """how often `name =` (plain assignment or initialiser) occurs in the whole unit"""
+        k = 0
+        for i in range(len(self.toks) - 1):
+            if self.toks[i] == ("id", name) and self.toks[i + 1] == ("op", "="):
+                k += 1
+        return k
